@@ -18,8 +18,8 @@ def nontrivial(ast) -> bool:
 async def check_expression(ctx, case, async_budget=12):
     """case: {"ast":..., "s": rendered string}"""
     ast, s = case["ast"], case["s"]
+    rng = ctx.case_rng(case)
     ctx.set_case("expression", case)
-    rng = ctx.rng
     out = capture(parse_condition_expression_to_tree, s)
     if out[0] != "ok":
         ctx.violation("valid-expression-not-parsed", f"parse_condition_expression_to_tree({s!r}) {describe(out)[:200]}")
@@ -65,12 +65,12 @@ async def check_expression(ctx, case, async_budget=12):
             ctx.count("async_evaluations_under_random_completion_order")
         aout = await H.async_requirement(s if rng.random() < 0.7 else tree, world, scheduler)
         if aout[0] != "ok":
-            ctx.violation(f"evaluation-raises-{type(aout[1]).__name__}", f"requirement_constraint_evaluation({s!r}) under {asg} {describe(aout)[:300]}", case=dict(case, assignments=[asg]))
+            ctx.violation(f"evaluation-raises-{type(aout[1]).__name__}", f"requirement_constraint_evaluation({s!r}) under {asg} {describe(aout)[:300]}", case=case)
             continue
         res = aout[1]
         got = (res.requirement_constraints_fulfilled, res.requirement_is_conditional)
         if got != expected:
-            ctx.violation("outcome-mapping", f"{s!r} under {asg}: (fulfilled, conditional) = {got}, documented mapping of state {logic.NAME[logic.ref_eval(ast, asg)]} is {expected}", case=dict(case, assignments=[asg]))
+            ctx.violation("outcome-mapping", f"{s!r} under {asg}: (fulfilled, conditional) = {got}, documented mapping of state {logic.NAME[logic.ref_eval(ast, asg)]} is {expected}", case=case)
 
 
 def make_case(rng, depth, pools, max_leaves):
@@ -108,7 +108,8 @@ async def check_shipped(ctx, case):
     ctx.set_case("shipped", case)
     rcs = G.keys_of(ast, "rc")
     hints = {k: "Hinweis " + k for k in G.keys_of(ast, "hint")}
-    asgs = case.get("assignments") or [{k: ctx.rng.choice("FUK") for k in rcs} for _ in range(3)]
+    crng = ctx.case_rng(case)
+    asgs = case.get("assignments") or [{k: crng.choice("FUK") for k in rcs} for _ in range(3)]
     # mode by mode, the assignments one after the other: consecutive messages through the same evaluator instances / the same data object
     for mode in ("hardcoded", "cer", "cer-long-lived", "instances"):
         for asg in asgs:
